@@ -200,6 +200,11 @@ func (b *Backend) GetTransactionReceipt(hash common.Hash) (*rpctypes.RPCReceipt,
 		if res.EthTxIndex > 0 {
 			// get gas used of previous txs
 			for txIdx, prevTx := range resBlock.Block.Txs[:res.TxIndex] {
+				// a tx refused before execution (dropped or rejected by ante) used no gas and is not one of the
+				// block's Ethereum transactions: neither consensus nor the block view count it.
+				if evmtypes.TxWasDroppedPreAnteHandleDueToBlockGasExcess(blockRes.TxsResults[txIdx]) {
+					continue
+				}
 				prevCosmosTx, err := b.clientCtx.TxConfig.TxDecoder()(prevTx)
 				if err != nil {
 					b.logger.Debug("decoding failed", "error", err.Error())
